@@ -32,3 +32,30 @@ Proof.
 Qed.
 Print Assumptions C10_fails_like_plain.
 
+
+(* structure of the alternatives answer, for every dataset and query (calc_single opaque) *)
+From TrV Require Import Proofs.AltProofs.
+Theorem C10_first_is_plain : forall d cs p acc egr rs total,
+  alternatives d cs p acc egr = Ok (rs, total) ->
+  exists r used tl, calc_single d cs p acc egr true = Ok (r, used) /\ rs = r :: tl.
+Proof. exact alt_first_is_plain. Qed.
+Print Assumptions C10_first_is_plain.
+
+Theorem C10_caps : forall d cs p acc egr rs total,
+  alternatives d cs p acc egr = Ok (rs, total) ->
+  (1 <= length rs)%nat /\ Z.of_nat (length rs) <= 50 /\ Z.of_nat (length rs) < total /\ total <= 200.
+Proof. exact alt_caps. Qed.
+Print Assumptions C10_caps.
+
+Theorem C10_distinct_line_sets : forall d cs p acc egr rs total,
+  alternatives d cs p acc egr = Ok (rs, total) ->
+  NoDup (map (fun r => sort_nat (route_lines d r)) rs).
+Proof. exact alt_distinct. Qed.
+Print Assumptions C10_distinct_line_sets.
+
+Theorem C10_each_is_recalculation : forall d cs p acc egr rs total r,
+  alternatives d cs p acc egr = Ok (rs, total) -> In r (tl rs) ->
+  exists maxtt ex used, maxtt <= q_maxtt p /\ incl (q_except_lines p) ex /\
+    calc_single d cs (with_alt p maxtt ex) acc egr false = Ok (r, used) /\ route_lines d r <> [].
+Proof. exact alt_each_is_recalculation. Qed.
+Print Assumptions C10_each_is_recalculation.
